@@ -226,6 +226,8 @@ func safeHash(paths []string) (out string) {
 	return "D:" + d
 }
 
+var fixedTime = time.Unix(1_000_000_000, 0)
+
 func absOf(root, rel string) string {
 	return root + "/" + strings.ReplaceAll(rel, "\x00", root)
 }
@@ -247,6 +249,9 @@ func build(root string, v variant) {
 		case 'f', 'v':
 			_ = os.MkdirAll(filepath.Dir(p), 0o755)
 			_ = os.WriteFile(p, []byte(e.content), 0o644)
+			// one fixed modification time for every file of every tree (as `cp -p`, `touch -r`, `rsync -t` or a checkout
+			// with restored times leave them): the digest is a function of paths and contents, never of file times
+			_ = os.Chtimes(p, fixedTime, fixedTime)
 		}
 	}
 	for _, e := range v.es {
@@ -633,6 +638,12 @@ func edits(c coll, rng *rand.Rand, max int) []variant {
 		vs = append(vs, variant{"content", setContent(c, e.rel, e.content+"!")})
 		if e.content != "" {
 			vs = append(vs, variant{"content", setContent(c, e.rel, "")})
+			// same size, other bytes (every file of a tree carries the same modification time, see build)
+			last := "Z"
+			if strings.HasSuffix(e.content, "Z") {
+				last = "Y"
+			}
+			vs = append(vs, variant{"content", setContent(c, e.rel, e.content[:len(e.content)-1]+last)})
 		}
 		for _, o := range files {
 			if o.content != e.content {
